@@ -22,7 +22,9 @@ def cfg_text(c, export=False, liveness=False, invariants=True):
             return '"%s"' % x
         return str(x)
     lines = ["SPECIFICATION " + ("FairSpec" if liveness else "Spec"), "CONSTANTS"]
-    for k in ("V7", "TokenMode", "SeqStart", "Sizes", "Senders", "MaxVital", "MaxNV", "MaxConnless",
+    c = dict(c)
+    c.setdefault("MaxVitalS", c["MaxVital"])
+    for k in ("V7", "TokenMode", "SeqStart", "Sizes", "Senders", "MaxVital", "MaxVitalS", "MaxNV", "MaxConnless",
               "MaxInFlight", "MaxFaults", "MaxClock", "MaxForge", "MaxDisc", "Reasons", "InitOnline"):
         lines.append("  %s = %s" % (k, s(c[k])))
     lines += ["CONSTRAINT Constr"]
@@ -155,26 +157,33 @@ def judge_summary(ctx, summary, prop):
         return 0
     nruns, bad, res = judge_trace(summary["cand_file"])
     ctx.coverage["traces_validated_against_impl"] += nruns
-    badruns = {b["run"]: b for b in bad}
+    badruns = {}
+    for b in bad:
+        badruns.setdefault(b["run"], []).append(b)
     nviol = 0
     for i, c in enumerate(cands, start=1):
-        b = badruns.get(i)
-        if b is None:
+        bs = badruns.get(i)
+        if not bs:
             ctx.report_drift("%s: code deviates from the detailed spec (%s %s) but the property-level spec accepts the run: %s"
                              % (summary["name"], c["class"], c["field"], json.dumps(c["path"])[:300]))
             continue
-        p = reason_property(b["why"])
-        if p == prop:
-            first = c["path"][-1].get("a", "?") if c["path"] else "?"
-            key = "%s|%s|%s|%s" % (b["why"][:60], "v7" if mode["V7"] else ("v6tok" if mode["TokenMode"] else "v6plain"), c["class"], first)
-            seen = ctx.__dict__.setdefault("_seen_keys", {})
-            seen[key] = seen.get(key, 0) + 1
-            if seen[key] > 2:
-                continue        # same finding reached by another schedule: two replay files per key are enough
-            if ctx.report(key, b["why"], {"mode": mode, "path": c["path"], "expected": c["expected"], "got": c["got"]}):
-                nviol += 1
-        else:
-            ctx.note("%s: a run violates %s (%s); reported by that property's check" % (summary["name"], p, b["why"][:80]))
+        for b in bs:
+            p = reason_property(b["why"])
+            if p == prop:
+                first = c["path"][-1].get("a", "?") if c["path"] else "?"
+                key = "%s|%s|%s|%s" % (b["why"][:60], "v7" if mode["V7"] else ("v6tok" if mode["TokenMode"] else "v6plain"), c["class"], first)
+                seen = ctx.__dict__.setdefault("_seen_keys", {})
+                seen[key] = seen.get(key, 0) + 1
+                if seen[key] > 2:
+                    continue        # same finding reached by another schedule: two replay files per key are enough
+                if ctx.report(key, b["why"], {"mode": mode, "path": c["path"], "expected": c["expected"], "got": c["got"]}):
+                    nviol += 1
+            else:
+                notes = ctx.__dict__.setdefault("_noted", set())
+                k = (summary["name"], p, b["why"][:60])
+                if k not in notes:
+                    notes.add(k)
+                    ctx.note("%s: a run violates %s (%s); reported by that property's check" % (summary["name"], p, b["why"][:80]))
     return nviol
 
 
@@ -242,6 +251,7 @@ CONSTANTS
   Sizes = {1}
   Senders = {"c", "s"}
   MaxVital = 1000000
+  MaxVitalS = 1000000
   MaxNV = 1000000
   MaxConnless = 1000000
   MaxInFlight = 1000000
@@ -356,7 +366,10 @@ def plans(prop, tier):
               ("v6tok-both", B(Senders={"c", "s"}, MaxVital=1, MaxFaults=1, MaxClock=1)),
               ("v6plain-2vital", B(TokenMode=False, MaxVital=2, MaxFaults=1, MaxClock=1)),
               ("v7-2vital", B(V7=True, MaxVital=2, MaxFaults=1, MaxClock=1)),
-              ("v6tok-wrap", B(InitOnline=True, SeqStart=1022, MaxVital=2, MaxFaults=1, MaxClock=1))]
+              ("v6tok-wrap", B(InitOnline=True, SeqStart=1022, MaxVital=2, MaxFaults=1, MaxClock=1)),
+              # the accepting side sends three vital chunks (a reset of its sequence numbers shows as a skipped chunk)
+              ("v7-sback", B(V7=True, Senders={"c", "s"}, MaxVital=1, MaxVitalS=3, MaxFaults=1, MaxClock=0)),
+              ("v6tok-sback", B(Senders={"c", "s"}, MaxVital=1, MaxVitalS=3, MaxFaults=1, MaxClock=0))]
         dr = [(m, "random", 1, 400) for m in ("v6tok", "v6plain", "v7")]
         if not q:
             mc += [("v6tok-L", B(Senders={"c", "s"}, MaxVital=1, MaxNV=0, MaxFaults=2, MaxClock=2, MaxInFlight=2)),
@@ -367,7 +380,9 @@ def plans(prop, tier):
                    ("v6plain-nv", B(TokenMode=False, MaxVital=1, MaxNV=1, MaxFaults=1, MaxClock=2)),
                    ("v7-both", B(V7=True, Senders={"c", "s"}, MaxVital=1, MaxFaults=1, MaxClock=1)),
                    ("v7-wrap", B(V7=True, InitOnline=True, SeqStart=1022, MaxVital=2, MaxFaults=1, MaxClock=2)),
-                   ("v6tok-3inflight", B(MaxVital=2, MaxFaults=1, MaxClock=1, MaxInFlight=3))]
+                   ("v6tok-3inflight", B(MaxVital=2, MaxFaults=1, MaxClock=1, MaxInFlight=3)),
+                   ("v7-sback-clock", B(V7=True, Senders={"c", "s"}, MaxVital=1, MaxVitalS=3, MaxFaults=1, MaxClock=1)),
+                   ("v6plain-sback-clock", B(TokenMode=False, Senders={"c", "s"}, MaxVital=1, MaxVitalS=3, MaxFaults=1, MaxClock=1))]
             dr = [(m, "random", s, 1500) for m in ("v6tok", "v6plain", "v7", "v6wrap", "v7wrap") for s in (1, 2, 3)]
     elif prop == "C02":
         live = [("v6tok-live", B(MaxVital=1, MaxFaults=1, MaxClock=1)),
